@@ -434,6 +434,10 @@ func parseASCII(f *File, body []byte) error {
 // Layout holds the purely textual freedoms of a header.
 type Layout struct {
 	CRLF bool
+	// Style selects how ascii float/double tokens are spelled (all spellings denote the same number):
+	// 0 shortest decimal ('g'), 1 17 (float: 9) significant digits, 2 scientific with 17 (9) digits,
+	// 3 plain decimal without exponent, 4 explicit '+' sign on non-negative numbers, 5 upper-case exponent
+	Style int
 	// Extra[k] lines are inserted after header line k (k = 1 is the format line; the last admissible
 	// k is the line before end_header). Each entry is a complete line such as "comment hello".
 	Extra map[int][]string
@@ -460,7 +464,40 @@ func (f *File) NumHeaderLines() int { return len(f.headerLines()) }
 
 // Token renders a value of type t as ascii: integers as decimal literals, float as the shortest
 // decimal that identifies the float32, double as the shortest decimal that identifies the float64.
-func Token(v float64, t Type) string {
+func Token(v float64, t Type) string { return TokenStyled(v, t, 0) }
+
+// NumStyles is the number of ascii number spellings TokenStyled knows.
+const NumStyles = 6
+
+// TokenStyled renders v in one of the spellings other tools emit; every spelling identifies the
+// same float32 / float64 (at least 9 / 17 significant digits, or the shortest identifying decimal).
+func TokenStyled(v float64, t Type, style int) string {
+	if t.Integer() || style == 0 {
+		return token0(v, t)
+	}
+	bits, digits := 64, 17
+	if t == Float {
+		v, bits, digits = float64(float32(v)), 32, 9
+	}
+	switch style {
+	case 1:
+		return strconv.FormatFloat(v, 'g', digits, bits)
+	case 2:
+		return strconv.FormatFloat(v, 'e', digits-1, bits)
+	case 3:
+		return strconv.FormatFloat(v, 'f', -1, bits)
+	case 4:
+		if v >= 0 && !math.Signbit(v) {
+			return "+" + token0(v, t)
+		}
+		return token0(v, t)
+	case 5:
+		return strings.ToUpper(strconv.FormatFloat(v, 'e', -1, bits))
+	}
+	return token0(v, t)
+}
+
+func token0(v float64, t Type) string {
 	switch {
 	case t.Integer():
 		return strconv.FormatInt(int64(v), 10)
@@ -523,7 +560,7 @@ func Encode(f *File, lay Layout) []byte {
 						toks = append(toks, Token(float64(len(row[pi])), p.CountType))
 					}
 					for _, v := range row[pi] {
-						toks = append(toks, Token(v, p.Type))
+						toks = append(toks, TokenStyled(v, p.Type, lay.Style))
 					}
 				}
 				b.WriteString(strings.Join(toks, " ") + "\n")
